@@ -28,7 +28,7 @@ pub fn main(subjects: Vec<Box<dyn Subject>>) {
     let only_input = arg(&args, "--input");
     let heartbeat = arg(&args, "--heartbeat");
     crate::subject::install_panic_hook();
-    let ctx = Ctx { tier, seed, oracle: Oracle::new(), only_input, heartbeat };
+    let ctx = Ctx { tier, seed, oracle: Oracle::new(), only_input, heartbeat, part, parts, sweep_slice_only: std::cell::Cell::new(false) };
     let mon = monitor_for(&property).unwrap_or_else(|| panic!("unknown property {property}"));
     let mut f = std::io::BufWriter::new(std::fs::File::create(&out).expect("create out"));
     // twin groups must land in the same part: partition by group key
@@ -39,6 +39,14 @@ pub fn main(subjects: Vec<Box<dyn Subject>>) {
                 continue;
             }
         } else if i % parts != part {
+            if tier == Tier::Thorough && s.spec().has_tag("sweep32") {
+                ctx.sweep_slice_only.set(true);
+                if let Some(rep) = mon(s.as_ref(), &ctx) {
+                    serde_json::to_writer(&mut f, &rep).unwrap();
+                    f.write_all(b"\n").unwrap();
+                }
+                ctx.sweep_slice_only.set(false);
+            }
             continue;
         }
         if let Some(rep) = mon(s.as_ref(), &ctx) {
